@@ -7,6 +7,7 @@ import (
 	"fmt"
 	"os"
 	"runtime"
+	"strings"
 	"time"
 
 	"pgregory.net/rapid"
@@ -219,7 +220,23 @@ func vfSettle(ctx *vfCtx) {
 			for i := 0; i < 10; i++ {
 				runtime.Gosched()
 			}
-			if q2, _ := vfQuiescent(); q2 {
+			if q2, rel2 := vfQuiescent(); q2 {
+				if os.Getenv("VF_DEBUG_SETTLE") != "" {
+					time.Sleep(time.Millisecond)
+					if q3, rel3 := vfQuiescent(); !q3 {
+						var sb strings.Builder
+						sb.WriteString("SETTLE-DEBUG: quiescent twice, then not. Second sample:\n")
+						for _, g := range rel2 {
+							sb.WriteString(fmt.Sprintf("  g%d [%s] %s\n", g.ID, g.State, firstFrame(g.Stack)))
+						}
+						sb.WriteString("third sample:\n")
+						for _, g := range rel3 {
+							sb.WriteString(fmt.Sprintf("  g%d [%s] %s\n", g.ID, g.State, firstFrame(g.Stack)))
+						}
+						fmt.Fprintln(os.Stderr, sb.String())
+						continue
+					}
+				}
 				return
 			}
 		}
@@ -233,6 +250,14 @@ func vfSettle(ctx *vfCtx) {
 }
 
 // vfHTree gives the request-server backend the same tree vfMkTree builds on disk.
+func firstFrame(stack string) string {
+	lines := strings.Split(stack, "\n")
+	if len(lines) > 1 {
+		return lines[1]
+	}
+	return ""
+}
+
 func vfHTree(h *vfH) {
 	h.addFile("/file", vfPRFBytes(1, 0, 300))
 	h.addDir("/dir")
